@@ -329,6 +329,19 @@ impl TxnsLen for TxnSet<'_> {
     }
 }
 
+fn run_request(req: &Value, scratch: &Path) -> Value {
+    let kind = req.get("kind").and_then(|x| x.as_str()).unwrap_or("session");
+    let r = catch_unwind(AssertUnwindSafe(|| match kind {
+        "session" => session(req, scratch),
+        other => misc::dispatch(other, req, scratch),
+    }));
+    match r {
+        Ok(Ok(v)) => v,
+        Ok(Err(e)) => json!({"stage":"harness","err":e.to_string()}),
+        Err(_) => json!({"stage":"panic","panic":true}),
+    }
+}
+
 fn main() {
     std::panic::set_hook(Box::new(|_| {}));
     let args: Vec<String> = std::env::args().collect();
@@ -352,15 +365,19 @@ fn main() {
                 continue;
             }
         };
-        let kind = req.get("kind").and_then(|x| x.as_str()).unwrap_or("session");
-        let r = catch_unwind(AssertUnwindSafe(|| match kind {
-            "session" => session(&req, &scratch),
-            other => misc::dispatch(other, &req, &scratch),
-        }));
-        let v = match r {
-            Ok(Ok(v)) => v,
-            Ok(Err(e)) => json!({"stage":"harness","err":e.to_string()}),
-            Err(_) => json!({"stage":"panic","panic":true}),
+        // "stack_kb": run the request in a thread with that stack size (recursion-depth regressions
+        // become observable with small inputs; a stack overflow aborts the process as usual)
+        let v = match req.get("stack_kb").and_then(|x| x.as_u64()) {
+            Some(kb) => {
+                let (req2, scratch2) = (req.clone(), scratch.clone());
+                std::thread::Builder::new()
+                    .stack_size(kb as usize * 1024)
+                    .spawn(move || run_request(&req2, &scratch2))
+                    .ok()
+                    .and_then(|h| h.join().ok())
+                    .unwrap_or_else(|| json!({"stage":"panic","panic":true}))
+            }
+            None => run_request(&req, &scratch),
         };
         let mut v = v;
         if let (Some(id), Some(o)) = (req.get("id"), v.as_object_mut()) {
